@@ -556,7 +556,8 @@ O == INSTANCE Output WITH
        prog <- [p \in Procs |-> OProg(prog[p])], cur <- [p \in Procs |-> OCur(cur[p])], lock <- lock,
        outClosed <- OutClosed, inClosed <- InClosed, wire <- wire,
        rets <- [p \in Procs |-> ORets(rets[p])],
-       peer <- MapSeq(OItem, inbox \o script), avail <- Len(inbox), failArmed <- FALSE, dl <- deadline, sv <- OSv
+       peer <- MapSeq(OItem, inbox \o script), avail <- Len(inbox), failArmed <- FALSE, dl <- (IF deadline THEN "passed" ELSE "none"),
+       broken <- FALSE, sv <- OSv
 
 OutputSpec == O!Spec
 (* Output.tla's invariants on the mapped variables (implied by OutputSpec; checked on   *)
